@@ -239,6 +239,19 @@ func tokens(doc string) ([]string, error) {
 	}
 }
 
+// dropBlankLeaves removes whitespace-only character data that is the whole content of an element.
+func dropBlankLeaves(t []string) []string {
+	var out []string
+	for i, x := range t {
+		if strings.HasPrefix(x, "C:") && strings.TrimSpace(x[2:]) == "" && i > 0 && i+1 < len(t) && strings.HasPrefix(t[i-1], "S:") && strings.HasPrefix(t[i+1], "E:") {
+			continue
+		}
+		out = append(out, x)
+	}
+
+	return out
+}
+
 var c03MidRe = regexp.MustCompile(`^<rpc xmlns="[^"]*" message-id="(\d+)"`)
 
 func runC03(env *Env, s Scenario) {
@@ -334,6 +347,10 @@ func runC03(env *Env, s Scenario) {
 			env.Res.HarnessError = fmt.Sprintf("generated expectation is not well-formed: %v: %q", werr, want)
 
 			return
+		}
+		if sc.SelfClosing {
+			// the option documents elements with whitespace-only content as empty
+			gt, wt = dropBlankLeaves(gt), dropBlankLeaves(wt)
 		}
 		if strings.Join(gt, "\x00") != strings.Join(wt, "\x00") {
 			env.Fail("request-content-mismatch", op.Kind, "op %d (%s, self-closing=%v):\n sent %q\n want (by construction, up to <x></x> vs <x/>) %q", j, op.Kind, sc.SelfClosing, firstN(body, 900), firstN(want, 900))
